@@ -81,6 +81,10 @@ func main() {
 
 	gSymbols.Add(g.LexPart.TokenIds()...)
 	g.LexPart.UpdateStringLitTokens(gSymbols.ListStringLitSymbols())
+	if err := g.LexPart.ExpandRegDefs(); err != nil {
+		fmt.Printf("Error: %s\n", err)
+		os.Exit(1)
+	}
 	lexSets := lexItems.GetItemSets(g.LexPart)
 	if cfg.Verbose() {
 		io.WriteFileString(path.Join(cfg.OutDir(), "lexer_sets.txt"), lexSets.String())
